@@ -464,7 +464,8 @@ XE(f, bd, ms, c) ==
 GlobalNames == {"my-or", "swap!", "my-let1", "m-lam", "m-idef", "rep", "m-lets", "m-rec", "my-for",
                 "use-g", "use-g2", "helper", "gv", "use-kw", "m-outer", "m-inner", "sum-acc", "defk", "defm",
                 "gen", "my-cond", "def-it", "def-tmp", "fn0", "fn1", "mm", "my-let*", "m-do", "m-o2", "m-i2",
-                "m-two", "k-else", "wrap", "def-fn", "m-pv", "m-pk", "m-bb", "m-op", "m-set", "ia", "ib"}
+                "m-two", "k-else", "wrap", "def-fn", "m-pv", "m-pk", "m-bb", "m-op", "m-set", "ia", "ib",
+                "m-id", "m-last", "use-g3"}
 RId(n) == IF n \in GlobalNames THEN n \o "@@" ELSE n
 RECURSIVE Rs(_)
 RsSeq(es) == Join([i \in 1..Len(es) |-> Rs(es[i])], " ")
@@ -710,7 +711,31 @@ CoreEntries ==
                          Call("list", <<y("p"), y("w"), HOLE>>)>>), FALSE)
   >>
 
-Lib == CoreEntries \o BuiltinEntries \o KwEntries
+\* free references of the template NESTED INSIDE THE OPERANDS OF ANOTHER MACRO the template uses (a derived keyword
+\* or a user macro, one or two levels): they reach the expander as part of a matched sub-form of that inner macro,
+\* and must still denote the definition-site global (procedure `helper`, variable `gv`)
+WrapKinds == <<"when", "unless", "and", "or", "cond", "let*", "begin", "user", "user-user", "user-ellipsis">>
+WrapT(w, e) == CASE w = "when"   -> Sl(<<y("when"), Sbool(TRUE), e>>)
+                 [] w = "unless" -> Sl(<<y("unless"), Sbool(FALSE), e>>)
+                 [] w = "and"    -> Sl(<<y("and"), Sbool(TRUE), e>>)
+                 [] w = "or"     -> Sl(<<y("or"), Sbool(FALSE), e>>)
+                 [] w = "cond"   -> Sl(<<y("cond"), L(<<Sbool(FALSE), num(1)>>), L(<<y("else"), e>>)>>)
+                 [] w = "let*"   -> Sl(<<y("let*"), L(<<L(<<y("w0"), num(1)>>)>>), e>>)
+                 [] w = "begin"  -> Sl(<<y("begin"), num(0), e>>)
+                 [] w = "user"   -> Call("m-id", <<e>>)
+                 [] w = "user-user" -> Call("m-id", <<Call("m-id", <<e>>)>>)
+                 [] w = "user-ellipsis" -> Call("m-last", <<num(0), e>>)
+WrapEntry(w) ==
+  Entry("free-global-in-" \o w,
+        <<Sl(<<y("define"), Scons(<<y("helper")>>, y("xs")), Call("cons", <<q(y("hlp")), y("xs")>>)>>),
+          Call("define", <<y("gv"), num(42)>>),
+          DefSyn("m-id", << >>, <<Rule(Pat(<<y("x")>>), y("x"))>>),
+          DefSyn("m-last", << >>, <<Rule(Pat(<<y("x"), DOTS, y("z")>>), Sl(<<y("begin"), y("x"), DOTS, y("z")>>))>>),
+          DefSyn("use-g3", << >>, <<Rule(Pat(<<A>>), WrapT(w, Call("helper", <<A, y("gv")>>)))>>)>>,
+        Call("use-g3", <<HOLE>>), FALSE)
+WrapEntries == [i \in 1..Len(WrapKinds) |-> WrapEntry(WrapKinds[i])]
+
+Lib == CoreEntries \o BuiltinEntries \o KwEntries \o WrapEntries
 \* entries whose macro names are pairwise distinct and whose hole is an expression: nesting family
 NestIdx == {i \in 1..Len(CoreEntries) : ~CoreEntries[i].argvar
                                         /\ CoreEntries[i].tag \notin {"for-loop-user-acc", "literals-else",
